@@ -1450,7 +1450,7 @@ fn main() {
             floors.extend([("programs:interleave", 300u64), ("lock_conflicts_expected", 200)]);
         }
         if want("seq") || want("interleave") {
-            floors.extend([("op:rollback", 500u64), ("op:commit", 500), ("rolled_back_writes", 1_000), ("quiescent_checks", 1_000), ("battery_queries", 20_000), ("finished_tx_rejections", 100), ("lock_holder_checks", 500), ("capacity_failures", 150), ("capacity_failures:tx_update", 30), ("rollbacks_after_capacity_failure", 50)]);
+            floors.extend([("op:rollback", 500u64), ("op:commit", 500), ("rolled_back_writes", 1_000), ("quiescent_checks", 1_000), ("battery_queries", 20_000), ("finished_tx_rejections", 100), ("lock_holder_checks", 500), ("capacity_failures", 400), ("capacity_failures:tx_update", 50), ("rollbacks_after_capacity_failure", 200)]);
         }
         if want("threads") {
             floors.extend([("programs:threads", 20u64), ("threads_lock_conflicts", 50), ("threads_writes", 2_000)]);
